@@ -219,7 +219,7 @@ def rule_pairing(chk):
     ctx = chk.ctx
     w = ctx.func("_output", "MemoryLogger.write")
     cfg = ctx.cfg(w)
-    params = [a.arg for a in w.node.args.args]
+    params = w.pos_params
     dparam, sparam = params[1], params[2]
 
     def appends(attr):
